@@ -773,9 +773,9 @@ func (e *Engine) bindContracts() error {
 			missing = append(missing, fmt.Sprintf("%s (%s:%d)", name, c.File, c.Line))
 		}
 	}
-	if len(missing) > 0 {
-		sort.Strings(missing)
-		return fmt.Errorf("contracts for unknown functions: %s", strings.Join(missing, ", "))
-	}
+	// a contract whose function no longer exists is reported as a failed result of that name (the
+	// code changed under the contract); the other functions are still verified
+	sort.Strings(missing)
+	e.missingContracts = missing
 	return nil
 }
